@@ -68,13 +68,13 @@ impl<const N: u32> PxE2<{ N }> {
                     u_z |= ui_c;
                     u_z = u_z.wrapping_neg();
                 } else {
-                    //prod is negative
+                    //prod is negative, c is zero or +1: -1 + 1 = 0, -1 + 0 = -1
                     u_z = if ui_c == u_z {
                         0
                     } else if u_z > 0 {
-                        0x_4000_0000
-                    } else {
                         0x_C000_0000
+                    } else {
+                        0x_4000_0000
                     };
                 }
             } else {
